@@ -157,6 +157,30 @@ def run(rep) -> None:
             if isinstance(o, dict) and (o.get("raised") or o.get("truthful_return") is False):
                 rep.violate("C11/return-annotation-untruthful/mixed-media-types", f"text/plain + application/json response: {o.get('raised') or o.get('return')} annotated {o.get('return_hint')}")
         packages.append(d / "mix")
+        # responses that are unions with non-primitive members, next to other typed statuses (no untyped status: Any would make the union vacuous)
+        out_ref, other = {"$ref": "#/components/schemas/Out"}, {"type": "object", "required": ["w"], "properties": {"w": S}}
+        prob = {"type": "object", "required": ["title"], "properties": {"title": S}}
+        comps = json.loads(json.dumps(endpoint.COMPONENTS))
+        comps["schemas"].update({"Other": other, "Problem": prob})
+        js = lambda sch: {"description": "d", "content": {"application/json": {"schema": sch}}}
+        ufam = {"umodels": ({"200": js({"oneOf": [out_ref, {"$ref": "#/components/schemas/Other"}]}), "404": js({"$ref": "#/components/schemas/Problem"})}, 200, b'{"w": "x"}'),
+                "umodels404": ({"200": js({"oneOf": [out_ref, {"$ref": "#/components/schemas/Other"}]}), "404": js({"$ref": "#/components/schemas/Problem"})}, 404, b'{"title": "t"}'),
+                "udatetime": ({"200": js({"oneOf": [{"type": "string", "format": "date-time"}, out_ref]}), "404": js({"type": "array", "items": out_ref})}, 200, b'"2020-01-02T03:04:05+00:00"'),
+                "unullable": ({"200": js({"oneOf": [out_ref, {"type": "null"}]}), "400": js({"$ref": "#/components/schemas/Problem"})}, 200, b'{"v": 1}'),
+                "ulist": ({"200": js({"anyOf": [{"type": "array", "items": out_ref}, {"$ref": "#/components/schemas/Other"}]}), "409": js({"type": "integer"})}, 200, b'[{"v": 2}]')}
+        udoc = gen.mkdoc(paths={f"/u/{n}": {"get": {"operationId": n, "tags": ["t"], "responses": rs}} for n, (rs, _, _) in ufam.items()}, components=comps)
+        gen.generate(udoc, d / "unionresp")
+        uo = endpoint.run_calls(d, "unionresp", [{"id": f"{n}-{v}", "module": f"t.{n}", "variant": v, "secured": False, "raise": False, "kwargs": {}, "body": None,
+                                                  "served": {"status": st, "ctype": "application/json", "body_b64": base64.b64encode(body).decode()}}
+                                                 for n, (_, st, body) in ufam.items() for v in ("sync_detailed", "sync", "asyncio_detailed", "asyncio")])
+        if "__crash__" in uo:
+            rep.violate("C11/endpoint-package-broken/union-responses", uo["__crash__"][-400:])
+        else:
+            for cid, o in uo.items():
+                rep.count(1, ("union-response", cid))
+                if isinstance(o, dict) and (o.get("raised") or o.get("truthful_return") is False):
+                    rep.violate(f"C11/return-annotation-untruthful/union-response/{cid.split('-')[0]}", f"{cid}: {o.get('raised') or o.get('return')} annotated {o.get('return_hint')}")
+        packages.append(d / "unionresp")
         # ---- request universe package + structured + rich documents, for mypy
         reqs = endpoint.enumerate_universe("request", 1, d)
         rops = {}
